@@ -72,3 +72,9 @@ def replay_file(path):
     print("$ " + cmd)
     p = subprocess.run(cmd, shell=True)
     return p.returncode
+
+
+def check_bindings():
+    """Compile replay/bindings.cc (static_asserts only) against /repo's current headers."""
+    p = subprocess.run(CXX + ["-fsyntax-only", os.path.join(VERIF, "replay", "bindings.cc")], stdout=subprocess.PIPE, stderr=subprocess.STDOUT, timeout=600)
+    return p.returncode == 0, p.stdout.decode(errors="replace")[-2000:]
